@@ -338,15 +338,19 @@ def maskWgt (r16 : Rat → Rat) (w : Rat) : Rat :=
   r16 w
 
 /-- one row of the p-value mask: `(gene index, stored distance)` for the genes
-with corrected p < p_th that violate no floor (`_p_values_worker`) -/
+with corrected p < p_th that violate no floor (`_p_values_worker`; the CSR row
+lists the genes in increasing order) -/
 def pValuesWorkerRowWith (pOrder : List Nat) (r16 : Rat → Rat) (t : Thresholds)
     (praw : List Rat) (g : List GeneScore) : Except Err (List (Nat × Rat)) :=
   let pvals := approxCorrectTtestWith pOrder praw t.pTh
   match penetranceDistance t g with
   | .error e => .error e
   | .ok d =>
-    .ok ((List.zip (List.range d.length) (List.zip pvals d)).filterMap (fun (i, p, x) =>
-      if decide (p < t.pTh) && !x.invalid then some (i, maskWgt r16 x.wgt) else none))
+    .ok ((List.range d.length).filterMap (fun i =>
+      match pvals[i]?, d[i]? with
+      | some p, some x =>
+        if decide (p < t.pTh) && !x.invalid then some (i, maskWgt r16 x.wgt) else none
+      | _, _ => none))
 
 def pValuesWorkerRow (r16 : Rat → Rat) (t : Thresholds) (praw : List Rat) (g : List GeneScore) :
     Except Err (List (Nat × Rat)) :=
@@ -367,30 +371,43 @@ def consecutiveCheck (idx : List Nat) : Except Err Unit :=
 /-- `eps = 1.0e-6` in `_get_validity_mask` -/
 def maskEps : Rat := 1 / 1000000
 
+/-- gene `i` is acceptable a priori (`valid_gene_idx`) -/
+def allowedAt (geneIdx : Option (List Nat)) (i : Nat) : Bool :=
+  match geneIdx with
+  | none => true
+  | some idx => idx.contains i
+
+/-- `penetrance_dist[gene_indices] = raw_distances` on `np.zeros`, clipped at 0 -/
+def maskDist0 (row : List (Nat × Rat)) (i : Nat) : Rat :=
+  let d := (row.lookup i).getD 0
+  if d < 0 then 0 else d
+
+/-- the distance after genes absent from the mask row, or invalid a priori, received
+`1.5 * bad_dist` -/
+def maskDist (row : List (Nat × Rat)) (geneIdx : Option (List Nat)) (bad : Rat) (i : Nat) : Rat :=
+  if (row.lookup i).isSome && allowedAt geneIdx i then maskDist0 row i else 3/2 * bad
+
 /-- `_get_validity_mask` -/
 def getValidityMask (nValid nGenes : Nat) (row : List (Nat × Rat)) (geneIdx : Option (List Nat)) :
     Except Err (List Bool) :=
   let nValid := min nValid nGenes        -- `n_valid = min(n_valid, n_genes)`
   let genes := List.range nGenes
-  let pMask := genes.map (fun i => (row.lookup i).isSome)
-  let dist0 := genes.map (fun i => let d := (row.lookup i).getD 0; if d < 0 then 0 else d)
-  match listMax dist0 with
+  -- `p_mask[gene_indices] = True`
+  let pMaskAt := fun i => (row.lookup i).isSome
+  match listMax (genes.map (maskDist0 row)) with
   | none => .error .emptyMax
   | some good =>
     let bad := 2 * (good + 1)
-    let allowed := allowedMask nGenes geneIdx
-    let dist := List.zipWith (fun (pm : Bool × Bool) d => if pm.1 && pm.2 then d else 3/2 * bad)
-      (pMask.zip allowed) dist0
-    let invalid := dist.map (fun d => decide (d ≥ bad))
-    let absValid := dist.map (fun d => decide (d < maskEps))
-    let v0 := andL pMask absValid
+    let distAt := maskDist row geneIdx bad
+    let invalidAt := fun i => decide (distAt i ≥ bad)
+    let absValidAt := fun i => decide (distAt i < maskEps)
+    let v0 := genes.map (fun i => pMaskAt i && absValidAt i)
     if v0.count true < nValid then
-      match kth dist (nValid - 1) with
+      match kth (genes.map distAt) (nValid - 1) with
       | none => .error .indexError
       | some cutoff =>
-        let pen := List.zipWith (fun (x : Rat × Bool) a => (decide (x.1 ≤ cutoff) && !x.2) || a)
-          (dist.zip invalid) absValid
-        .ok (andL pMask pen)
+        .ok (genes.map (fun i =>
+          pMaskAt i && ((decide (distAt i ≤ cutoff) && !invalidAt i) || absValidAt i)))
     else .ok v0
 
 /-- one pair through the p-value-mask route -/
